@@ -233,6 +233,16 @@ func toBitsList(bitDefintions []*meta.Bit, v interface{}) (val.BitsList, error) 
 		return toBitsListHandler(bitDefintions, x)
 	case []float64: // default type for decimals from JSON parser
 		return toBitsListHandler(bitDefintions, x)
+	case []interface{}: // what a decoded JSON array is
+		result := make([]val.Bits, len(x))
+		for i, item := range x {
+			b, err := toBits(bitDefintions, item)
+			if err != nil {
+				return nil, err
+			}
+			result[i] = b
+		}
+		return result, nil
 	}
 	return nil, fmt.Errorf("could not coerce %v into BitList", v)
 }
